@@ -134,7 +134,7 @@ def check_vec(prop, tier, seed, work, t0):
     res.merge(vfw.run_shards(work, bins["vecops-prod" + sfx], prop, tier, seed, NCPU, a_prod, tag="prod" + sfx, timeout=7200 if th else 1500))
     res.merge(vfw.run_shards(work, bins["vecops-asan" + sfx], prop, tier, seed + 1000003, NCPU, a_asan, tag="asan" + sfx, timeout=7200 if th else 1500))
     # the same workload compiled with -march=native (a build configuration users choose; enables code guarded by finer ISA macros)
-    rn = vfw.run_shards(work, bins["vecops-native" + sfx], prop, tier, seed + 2000003, NCPU, a_asan if not th else a_prod, tag="native" + sfx, timeout=7200 if th else 1500)
+    rn = vfw.run_shards(work, bins["vecops-native" + sfx], prop, tier, seed + 2000003, NCPU, a_asan, tag="native" + sfx, timeout=7200 if th else 1500)
     rn.counters["build:march_native_processes"] = NCPU
     res.merge(rn)
     return vfw.finalize(prop, tier, seed, res, t0, rule, assumptions=ASSUME_COMMON, required=required,
